@@ -116,7 +116,8 @@ func c01Gen(c *vfCtx, emit func(c01Case)) {
 		}
 	}
 	// C: two tests sharing the file (child, name-prefix sibling, other), 1 call each + second execution order swapped
-	names := [][2]string{{"TestA", "TestA/s"}, {"TestA", "TestAB"}, {"TestA", "TestB"}, {"TestA/s", "TestA/s#01"}}
+	// (incl. names with characters that mean something to fmt, regexp, glob or the file format)
+	names := [][2]string{{"TestA", "TestA/s"}, {"TestA", "TestAB"}, {"TestA", "TestB"}, {"TestA/s", "TestA/s#01"}, {"TestA/50%_off", "TestA/%d_%s"}, {"TestA/[x]", "TestA/a:b*?"}}
 	for _, nn := range names {
 		for _, b1 := range smallBodies {
 			for _, b2 := range smallBodies {
